@@ -1,6 +1,6 @@
 SPECIFICATION TSpec
 CHECK_DEADLOCK FALSE
 CONSTANTS
-  Vars = {"a", "b"}
+  Vars = {"a", "b", "c"}
   MaxObj = 12
 INVARIANT AtMostOnce
